@@ -12,6 +12,7 @@
 EXTENDS Interval, TLC, Json
 CONSTANTS MaxP, MaxLen, ExportLen,
           StackMax, MaxFree,      \* stacked family (StackMax = 0: off)
+          StackMod, StackRem,     \* stacked family: only base intervals with (7*lo + hi) % StackMod = StackRem
           RepeatWeight,           \* simulation bias (0: off)
           Only        \* {} = explore everything; else a set of histories <<<<lo,hi>>,...>> to replay
 VARIABLES hist, obs
@@ -31,7 +32,8 @@ Observe(h, iv) ==
 
 HistT(h)   == [i \in 1..Len(h) |-> <<h[i].lo, h[i].hi>>]
 AllEq(h, k)  == \A i \in 1..k : h[i] = h[1]
-StackOK(h)   == Len(h) = 0 \/ \E k \in 1..StackMax : k <= Len(h) /\ AllEq(h, k) /\ Len(h) - k <= MaxFree
+BaseOK(iv)   == (7 * iv.lo + iv.hi) % StackMod = StackRem
+StackOK(h)   == Len(h) = 0 \/ (BaseOK(h[1]) /\ \E k \in 1..StackMax : k <= Len(h) /\ AllEq(h, k) /\ Len(h) - k <= MaxFree)
 StackLeaf(h) == Len(h) > MaxFree /\ Len(h) - MaxFree <= StackMax /\ AllEq(h, Len(h) - MaxFree)
 Allowed(h) == IF Only # {} THEN \E o \in Only : Len(h) <= Len(o) /\ SubSeq(o, 1, Len(h)) = HistT(h)
               ELSE IF StackMax > 0 THEN StackOK(h) ELSE TRUE
